@@ -104,6 +104,7 @@ func startMain(pre []string) (*mainProc, error) {
 	}
 	var fifos []string
 	for _, p := range pre {
+		p = strings.ReplaceAll(p, "/", "--") // the directory name main gives a source
 		if err := os.MkdirAll(filepath.Join(sb.stage, p), 0o755); err != nil {
 			return nil, err
 		}
